@@ -148,17 +148,32 @@ inline std::string demangle(const char *n) {
 // ------------------------------------------------------------ alloc shim ---
 // Replacement global operator new/delete (defined in alloc_shim.inc, included
 // by exactly one translation unit of each executor).
+struct Block { const char *p; size_t n; long id; bool live; };
 struct AllocState {
     unsigned char fill = 0xA5;     // pattern written into every fresh block
     long long count = 0;           // allocations since reset
     long long fail_at = 0;         // fail the k-th allocation from now (0 = never), one shot
     long long live = 0;            // live blocks (all)
-    bool log = false;              // record events
-    struct Evt { char kind; const void *p; size_t n; };
-    std::vector<Evt> *events = nullptr;
-    bool inside = false;
+    bool track = false;            // keep a registry of blocks (pool executors)
+    bool inside = false;           // allocations made by the harness itself are not tracked
+    static const int kMax = 8192;
+    Block blocks[kMax]; int nblocks = 0; long next_id = 1;
+    int bad_frees = 0;             // delete of a pointer that is not a live tracked block
+    void reset_registry() { nblocks = 0; next_id = 1; bad_frees = 0; count = 0; fail_at = 0; }
+    // block containing address a (live or freed), or nullptr
+    const Block *find(const void *a) const {
+        const char *c = (const char *)a;
+        for (int i = nblocks - 1; i >= 0; --i)
+            if (c >= blocks[i].p && c < blocks[i].p + (blocks[i].n ? blocks[i].n : 1)) return &blocks[i];
+        return nullptr;
+    }
+};
+struct Untracked {   // RAII: harness-internal allocations
+    bool saved; Untracked();  ~Untracked();
 };
 AllocState &alloc_state();
+inline Untracked::Untracked() : saved(alloc_state().inside) { alloc_state().inside = true; }
+inline Untracked::~Untracked() { alloc_state().inside = saved; }
 
 // RNG (xorshift64*), seeded from VERIF_SEED
 struct Rng {
